@@ -1254,7 +1254,7 @@ func stateAnyCommentStart(s *Scanner, c byte) state {
 		s.annotation = annotationNone
 		s.step = stateInlineComment
 		return scanContinue
-	} else if s.data.Byte(s.index) == '#' { // third #
+	} else if s.index < s.dataSize && s.data.Byte(s.index) == '#' { // third #
 		s.annotation = annotationNone
 		s.step = stateMultiLineComment
 		return scanContinue
